@@ -326,8 +326,9 @@ pub async fn dialer_wait_ack(conn: &quinn::Connection) -> anyhow::Result<()> {
     Ok(())
 }
 
-pub fn gid_of(run: &crate::trace::Run, conn: &quinn::Connection) -> u64 {
+/// The raw global connection id (the trace sink maps it to its dense index when logged as "gid").
+pub fn gid_of(_run: &crate::trace::Run, conn: &quinn::Connection) -> u64 {
     let mut out = [0u8; 8];
     let _ = conn.export_keying_material(&mut out, b"anemo-verif", b"");
-    run.dense_gid(u64::from_be_bytes(out) >> 12)
+    u64::from_be_bytes(out) >> 12
 }
